@@ -161,15 +161,46 @@ def rule_is_magic_guard(ctx: Ctx, rule: str) -> None:
     ctx.text(rule, 'is_magic and escape exempt a Windows drive prefix under the same guard: path mode and '
                    '((unix is None and host is windows) or unix is False)')
     repo = ctx.repo
-    want = "is_path and (unix is None and util.platform() == 'windows' or unix is False)"
+    want = "flags & PATHNAME and (unix is None and util.platform() == 'windows' or unix is False), unix = is_unix_style(flags)"
     im = repo.func(WP, 'is_magic')
-    g = [n for n in walk_no_nested(im.node) if isinstance(n, ast.If) and any(isinstance(x, ast.Call) and norm_src(x.func) == 'drive_pat.match' for s in n.body for x in ast.walk(s))]
-    ok = len(g) == 1 and equivalent_tests(g[0].test, want, fn=None)
-    ctx.ob(rule, f'{WP}:is_magic/drive-guard', ok, repo.loc(WP, g[0] if g else im.node), want, norm_src(g[0].test) if g else 'none',
+    from .common import api_table
+    from ..symeval import focus
+    _ev, paths = api_table(repo, WP, 'is_magic')
+    pn = repo.const(WP, 'PATHNAME')
+    bit = f'bit:flags:{pn:x}'
+    bad = []
+    n_m = 0
+
+    def K_and(*xs: Any) -> Any:
+        return False if any(x is False for x in xs) else (None if any(x is None for x in xs) else True)
+
+    def K_or(*xs: Any) -> Any:
+        return True if any(x is True for x in xs) else (None if any(x is None for x in xs) else False)
+    for p in paths:
+        focus(p)
+        d = p.decisions
+        matched = [e for e in p.of('call') if e[1].endswith('.match') and 'RegexConst' in e[1]]
+        u_false = u_none = win = None
+        for k, v in d.items():
+            if k.startswith(f'{WP}:is_unix_style(') and k.endswith(' is False'):
+                u_false = v
+            elif k.startswith(f'{WP}:is_unix_style(') and k.endswith(' is not None'):
+                u_none = not v
+            elif k.startswith(f'{WP}:is_unix_style(') and k.endswith(' is None'):
+                u_none = v
+            elif k == "util:platform() == 'windows'":
+                win = v
+        exp = K_and(d.get(bit), K_or(K_and(u_none, win), u_false))
+        if matched:
+            n_m += 1
+            if [_tag(a) for a in matched[0][2]] != ['pattern']:
+                bad.append(f'the drive pattern is matched against {[_tag(a) for a in matched[0][2]]}')
+        if exp is None or bool(matched) != exp:
+            bad.append(f'PATHNAME={d.get(bit)} unix is None={u_none} windows={win} unix is False={u_false}: drive prefix looked for={bool(matched)}')
+    if n_m < 2:
+        raise AnalysisError('is_magic: the drive prefix match is not reached in the table')
+    ctx.ob(rule, f'{WP}:is_magic/drive-guard', not bad, repo.loc(WP, im.node), want, f'{len(paths)} rows agree' if not bad else sorted(set(bad))[0],
            witness="fnmatch.is_magic('//server/sh*re', flags=FORCEWIN) must be True: names have no drive prefix")
-    ip = [s for s in walk_no_nested(im.node) if isinstance(s, ast.Assign) and norm_src(s.targets[0]) == 'is_path']
-    ctx.ob(rule, f'{WP}:is_magic/is_path', len(ip) == 1 and norm_src(ip[0].value) == 'flags & PATHNAME', repo.loc(WP, im.node), 'is_path = flags & PATHNAME',
-           norm_src(ip[0].value) if ip else 'none')
 
 
 def rule_references_table(ctx: Ctx, rule: str) -> None:
